@@ -43,7 +43,13 @@ def replay(ctx, data):
         return 1
     if not ctx.build_harness("c02"):
         return 1
-    rep = ctx.harness("c02", ["replay", json.dumps(data["input"])])
+    # handed over in a file (a script can exceed the argv limit); not under /tmp
+    path = os.path.join(common.VERIF, "evidence", "replays", ".C02-replay-input.json")
+    json.dump(data["input"], open(path, "w"))
+    try:
+        rep = ctx.harness("c02", ["replay", "@" + path])
+    finally:
+        os.remove(path)
     if rep is None:
         return 1
     bad = rep.get("impl_violations") or rep.get("model_mismatches")
